@@ -17,6 +17,7 @@ mod docs;
 mod domrec;
 mod domreplay;
 mod domtext;
+mod ns;
 mod util;
 mod world;
 mod xp;
@@ -45,6 +46,7 @@ fn main() {
         s if s.starts_with("doc-") => docs::main(s, rest),
         s if s.starts_with("xp-") => xp::main(s, rest),
         s if s.starts_with("cli-") => cli::main(s, rest),
+        s if s.starts_with("ns-") => ns::main(s, rest),
         other => {
             eprintln!("unknown subcommand {}", other);
             2
